@@ -425,6 +425,102 @@ fn run(ctx: &mut Ctx) {
             });
         }
     }
+    // ---------------- (b4) a realistic boot information (values as GRUB on a PC reports them), complete, with each
+    // single tag left out, with a boot-services tag added, and rotated: what one tag says must not change how another
+    // is decoded
+    ctx.bound("realistic_region", "a boot information with realistic contents of every kind (command line, GRUB loader name, initrd module at 16 MiB, 640 KiB / 127 MiB memory, BIOS boot device 0x80, PC memory map, VESA 3.0 VBE info, linear RGB framebuffer at 0xFD000000, ELF sections, APM 1.2, EFI system tables, SMBIOS 3.0 entry point, valid ACPI 1.0 / 2.0 RSDPs, DHCP ack, EFI memory map, image handles, load base 2 MiB): complete, with each single tag left out, with a boot-services tag added in front / behind, and in 5 rotations; all 22 getters");
+    {
+        let fix_sum = |t: &mut Vec<u8>, at: usize, from: usize, to: usize| {
+            t[at] = 0;
+            let s: u8 = t[from..to].iter().fold(0u8, |a, b| a.wrapping_add(*b));
+            t[at] = 0u8.wrapping_sub(s);
+        };
+        let mut control = vec![0u8; 512];
+        control[..4].copy_from_slice(b"VESA");
+        control[4..6].copy_from_slice(&0x0300u16.to_le_bytes());
+        control[18..20].copy_from_slice(&256u16.to_le_bytes());
+        let mut mode = vec![0u8; 256];
+        mode[0..2].copy_from_slice(&0x00BBu16.to_le_bytes());
+        mode[16..18].copy_from_slice(&4096u16.to_le_bytes());
+        mode[18..20].copy_from_slice(&1024u16.to_le_bytes());
+        mode[20..22].copy_from_slice(&768u16.to_le_bytes());
+        mode[25] = 32;
+        mode[27] = 6;
+        mode[40..44].copy_from_slice(&0xFD00_0000u32.to_le_bytes());
+        mode[44..48].copy_from_slice(&0x00A1_B2C3u32.to_le_bytes());
+        mode[48..50].copy_from_slice(&0xD4E5u16.to_le_bytes());
+        let mut rsdp1 = bi::enc_rsdp1(0, b"BOCHS ", 0, 0x07FE_1A2B);
+        fix_sum(&mut rsdp1, 16, 8, 28);
+        let mut rsdp2 = bi::enc_rsdp2(0, b"BOCHS ", 2, 0x07FE_1A2B, 36, 0x0000_0000_07FE_1B3C, 0);
+        fix_sum(&mut rsdp2, 16, 8, 28);
+        fix_sum(&mut rsdp2, 40, 8, 44);
+        let mut efimap = vec![];
+        for (t, p, n) in [(7u32, 0u64, 0xA0u64), (7, 0x10_0000, 0x7EE0), (0, 0x7FE_0000, 0x20), (11, 0xFFFC_0000, 0x40)] {
+            efimap.extend(bi::enc_efi_desc(t, p, 0, n, 0xF));
+            efimap.extend_from_slice(&[0; 8]);
+        }
+        let pc = [(0u64, 0x9FC00u64, 1u32, 0u32), (0x9FC00, 0x400, 2, 0), (0xF0000, 0x10000, 2, 0), (0x10_0000, 0x7EE_0000, 1, 0), (0x7FE_0000, 0x2_0000, 3, 0), (0xFFFC_0000, 0x4_0000, 2, 0)];
+        let mut sm = b"_SM3_".to_vec();
+        sm.extend_from_slice(&[0x5A, 0x18, 3, 0, 0, 1, 0, 0x9D, 1, 0, 0, 0xF0, 0x0E, 0x0F, 0, 0, 0, 0, 0]);
+        let full: Vec<Vec<u8>> = vec![
+            bi::enc_string(bi::CMDLINE, b"root=/dev/sda1 ro quiet\0"),
+            bi::enc_string(bi::BOOTLOADER, b"GRUB 2.06\0"),
+            bi::enc_module(0x0100_0000, 0x0110_0000, b"/boot/initrd.img\0"),
+            bi::enc_meminfo(640, 130048),
+            bi::enc_bootdev(0x80, 0, 0xFFFF_FFFF),
+            bi::enc_mmap(24, 0, &pc),
+            bi::enc_vbe(0x4118, 0xC000, 0x5E10, 0x0100, &control, &mode),
+            bi::enc_framebuffer(0xFD00_0000, 4096, 1024, 768, 32, 1, &[16, 8, 8, 8, 0, 8]),
+            bi::sample(bi::ELF, 1, 2),
+            bi::enc_apm(0x0102, 0xF000, 0x0000_8A4B, 0xF000, 0x0040, 0x0003, 0xFFFF, 0xFFFF, 0xFFFF),
+            bi::enc_u32(bi::EFI32, 0x7FED_E018),
+            bi::enc_u64(bi::EFI64, 0x0000_0000_7FED_E018),
+            bi::enc_smbios(3, 0, &sm),
+            rsdp1,
+            rsdp2,
+            bi::tag(bi::NETWORK, &[2, 1, 6, 0, 0x39, 0x03, 0xF3, 0x26, 0, 0, 0, 0, 10, 0, 2, 15, 10, 0, 2, 2]),
+            bi::enc_efi_mmap(48, 1, &efimap),
+            bi::enc_u32(bi::EFI32_IH, 0x7F1B_2C18),
+            bi::enc_u64(bi::EFI64_IH, 0x0000_0000_7F1B_2C18),
+            bi::enc_u32(bi::LOAD_BASE, 0x0020_0000),
+        ];
+        let mut variants: Vec<(String, Vec<Vec<u8>>)> = vec![("complete".into(), full.clone())];
+        for k in 0..full.len() {
+            let mut v = full.clone();
+            v.remove(k);
+            variants.push((format!("without tag #{}", k), v));
+        }
+        for front in [true, false] {
+            let mut v = full.clone();
+            if front {
+                v.insert(0, bi::sample(bi::EFI_BS, 0, 0));
+            } else {
+                v.push(bi::sample(bi::EFI_BS, 0, 0));
+            }
+            variants.push((format!("with a boot-services tag {}", if front { "in front" } else { "behind" }), v));
+        }
+        for rot in [1usize, 5, 9, 13, 17] {
+            let mut v = full.clone();
+            v.rotate_left(rot);
+            variants.push((format!("rotated by {}", rot), v));
+        }
+        let mut rv = full.clone();
+        rv.reverse();
+        variants.push(("reversed".into(), rv));
+        for (what, mut tags) in variants {
+            tags.push(bi::end_tag());
+            let region = bi::region(&tags, &bi::zero_pad);
+            let describe = || J::obj().set("part", "realistic_region").set("variant", what.as_str()).set("region_len", region.len());
+            ctx.leaf(describe, |ctx| {
+                ctx.state(hash::hash_bytes(&region));
+                ctx.nontrivial();
+                for g in 0..=21u32 {
+                    let want = expected_for(&region, g);
+                    check_getter(ctx, &big_arena0, &region, g, want, "realistic_region");
+                }
+            });
+        }
+    }
     // ---------------- (c) EFI withholding rule
     ctx.bound("efi_rule", "all sequences of length <= 4 over {EfiMmap, EfiBs, other, EfiMmap with an unsupported descriptor version (only together with EfiBs)}: the EFI memory map is withheld - and not looked into - while a boot-services-not-exited tag is present anywhere");
     for len in 0..=4 {
